@@ -171,8 +171,8 @@ class RangeMachine(Machine):
         return [(off, wrote, ln, ksrc, fresh)] + viol
 
 
-def run(ctx):
-    chk = Check('C03', ctx)
+def run(ctx, host=None):
+    chk = host.sub('C03') if host is not None else Check('C03', ctx)
     prog, K, E = ctx.prog, ctx.kinds, ctx.effects
     R1 = chk.rule('C03.R1', "offset = tell() before the object's first write, length = tell() - offset after its last write, staged with both; pack_id = the locked pack", 5)
     R2 = chk.rule('C03.R2', 'tell() of the append handle is the real end of file (no tell/write between seek and truncate)', 3)
@@ -333,6 +333,11 @@ def run(ctx):
     else:
         chk.bad(R4, 'utils:_get_compression_algorithm_info', 'zlib codec', 'compressed objects are no longer plain zlib streams (zlib.compressobj(level) / zlib.decompressobj with default wbits) as the documented recovery assumes',
                 where=f'{info.module.relpath}:{info.lineno}')
+
+    # rules of other properties that are necessary conditions of this one too: no key indexed twice (C09) and ranges that never move or shrink (C13) are part of index/pack consistency
+    if host is None:
+        from ..report import host_modules
+        host_modules(chk, ctx, ['C09', 'C13'])
 
     return chk.finish(
         explanation=("Static analysis of what ends up in the index: a per-iteration typestate on the three pack-writing loops (offset = tell() before the object's first write, "
